@@ -15,6 +15,7 @@
 From stdpp Require Import gmap strings sorting.
 Require Import Grits.Base Grits.Forms Grits.Expand Grits.TcTop Grits.Runtime.
 Require Import Grits.RuntimeFootprint Grits.proofs.RuntimeFacts Grits.proofs.Diamond Grits.proofs.Determinism Grits.proofs.AsyncSync Grits.proofs.RuntimeCheckFacts Grits.proofs.ForkJoin Grits.proofs.DeterminismExamples.
+Require Import Grits.Tc Grits.spec.RtTyping Grits.spec.Topo Grits.proofs.RtSafety Grits.proofs.RtInit Grits.proofs.RtTheorems Grits.proofs.DeterminismTyped Grits.proofs.TopoLin Grits.proofs.TopoStep Grits.proofs.TopoReach Grits.proofs.InitLinear.
 
 Theorem C03_step_is_move : forall md D F c ch, step md D F c ch = sres_of c (move_of md D F c ch).
 Proof. exact step_move. Qed.
@@ -176,6 +177,101 @@ Theorem C03_exec_check_run : forall fuel pick md D F c st,
   (exec_check fuel pick md D F c st).1 = exec_run fuel pick md D F c.
 Proof. exact exec_check_run. Qed.
 
+(* TYPED: the hypotheses of C03_determinism_partial discharged from the run-time typing of C01 and the
+   forest invariant Topo.  For a typed forest any two distinct enabled choices are independent ... *)
+Theorem C03_typed_async_discipline : forall D F teq, teq_laws D teq -> funs_typed D F teq ->
+  forall Δ c, cfg_typed D F teq Δ c -> Topo c -> async_discipline D c.
+Proof. exact typed_async_discipline. Qed.
+
+Theorem C03_typed_sync_discipline : forall D F teq, teq_laws D teq -> funs_typed D F teq ->
+  forall Δ c, cfg_typed D F teq Δ c -> Topo c -> bufs_empty c -> sync_discipline D F c.
+Proof. exact typed_sync_discipline. Qed.
+
+(* ... hence determinism for every accepted closed program in both polarized modes.  The three
+   premises are those of C01 / C02 (proofs/RtTheorems.v): type equality satisfies teq_laws, the
+   checker's annotated output is typed in the run-time judgement, every reachable configuration is
+   a forest (Topo). *)
+Theorem C03_determinism_typed : forall (teqD : STypes.tenv -> STypes.sty -> STypes.sty -> Prop),
+  (forall p p', typecheck p = Accept p' -> teq_laws (p_types p') (teqD (p_types p'))) ->
+  (forall p p', typecheck p = Accept p' -> in_fragment p' -> static_typed (teqD (p_types p')) p') ->
+  (forall p p' md c, typecheck p = Accept p' -> in_fragment p' -> is_np md = false ->
+     reachable (p_types p') (p_funs p') md (init_config p') c -> Topo c) ->
+  forall p p' md pick1 pick2 f1 f2 t1,
+    typecheck p = Accept p' -> in_fragment p' -> is_np md = false ->
+    exec_run f1 pick1 md (p_types p') (p_funs p') (init_config p') = RQuiescent t1 -> (f1 <= f2)%nat ->
+    exists t2, exec_run f2 pick2 md (p_types p') (p_funs p') (init_config p') = RQuiescent t2 /\
+               cfg_equiv t2 t1 /\ labels t2 ≡ₚ labels t1.
+Proof. exact determinism_typed. Qed.
+
+Theorem C03_async_sync_agree_typed : forall (teqD : STypes.tenv -> STypes.sty -> STypes.sty -> Prop),
+  (forall p p', typecheck p = Accept p' -> teq_laws (p_types p') (teqD (p_types p'))) ->
+  (forall p p', typecheck p = Accept p' -> in_fragment p' -> static_typed (teqD (p_types p')) p') ->
+  (forall p p' md c, typecheck p = Accept p' -> in_fragment p' -> is_np md = false ->
+     reachable (p_types p') (p_funs p') md (init_config p') c -> Topo c) ->
+  forall p p' pick1 f1 t1,
+    typecheck p = Accept p' -> in_fragment p' ->
+    exec_run f1 pick1 Sync (p_types p') (p_funs p') (init_config p') = RQuiescent t1 ->
+    exists n, forall pick2 f2, (n < f2)%nat ->
+      exists t2, exec_run f2 pick2 Async (p_types p') (p_funs p') (init_config p') = RQuiescent t2 /\
+                 labels t2 ≡ₚ labels t1.
+Proof. exact async_sync_agree_typed. Qed.
+
+(* TOPO IS AN INVARIANT (core fragment: no drop, no split, one provider name per process): the
+   invariant Inv = run-time typing + Topo + affine bodies (every client name at most once on every
+   control path, in every scope) + namespace hygiene + core fragment is preserved by every step of
+   the two polarized modes; hence `topo_step` and `topo_reachable` are theorems there ... *)
+Theorem C03_inv_step : forall D F teq, teq_laws D teq -> funs_typed D F teq -> core_funs F -> funs_aff F ->
+  forall md c ch c', is_np md = false -> Inv D F teq c -> (md = Sync -> bufs_empty c) ->
+  step md D F c ch = SStep c' -> Inv D F teq c' /\ (md = Sync -> bufs_empty c').
+Proof. exact inv_step. Qed.
+
+Theorem C03_topo_step_core : forall D F teq, teq_laws D teq -> funs_typed D F teq -> core_funs F -> funs_aff F ->
+  forall md c ch c', is_np md = false -> Inv D F teq c -> (md = Sync -> bufs_empty c) ->
+  step md D F c ch = SStep c' -> Topo c'.
+Proof. exact topo_step_core. Qed.
+
+Theorem C03_topo_reachable_core : forall (teqD : STypes.tenv -> STypes.sty -> STypes.sty -> Prop),
+  (forall p p', typecheck p = Accept p' -> teq_laws (p_types p') (teqD (p_types p'))) ->
+  (forall p p', typecheck p = Accept p' -> in_fragment p' -> static_typed (teqD (p_types p')) p') ->
+  forall p p' md c, typecheck p = Accept p' -> in_fragment p' -> init_linear p' -> is_np md = false ->
+    reachable (p_types p') (p_funs p') md (init_config p') c -> Topo c.
+Proof. exact topo_reachable_core_program. Qed.
+
+(* ... and C03 for accepted closed programs of the core fragment needs no premise about runs:
+   what remains is teq_ok, tc_annotations_typed (as for C01 / C02) and the STATIC condition
+   init_linear (function bodies and initial bodies affine and in the core fragment, the initial
+   configuration a forest). *)
+Theorem C03_determinism_typed_core : forall (teqD : STypes.tenv -> STypes.sty -> STypes.sty -> Prop),
+  (forall p p', typecheck p = Accept p' -> teq_laws (p_types p') (teqD (p_types p'))) ->
+  (forall p p', typecheck p = Accept p' -> in_fragment p' -> static_typed (teqD (p_types p')) p') ->
+  forall p p' md pick1 pick2 f1 f2 t1,
+    typecheck p = Accept p' -> in_fragment p' -> init_linear p' -> is_np md = false ->
+    exec_run f1 pick1 md (p_types p') (p_funs p') (init_config p') = RQuiescent t1 -> (f1 <= f2)%nat ->
+    exists t2, exec_run f2 pick2 md (p_types p') (p_funs p') (init_config p') = RQuiescent t2 /\
+               cfg_equiv t2 t1 /\ labels t2 ≡ₚ labels t1.
+Proof. exact determinism_typed_core. Qed.
+
+Theorem C03_async_sync_agree_typed_core : forall (teqD : STypes.tenv -> STypes.sty -> STypes.sty -> Prop),
+  (forall p p', typecheck p = Accept p' -> teq_laws (p_types p') (teqD (p_types p'))) ->
+  (forall p p', typecheck p = Accept p' -> in_fragment p' -> static_typed (teqD (p_types p')) p') ->
+  forall p p' pick1 f1 t1,
+    typecheck p = Accept p' -> in_fragment p' -> init_linear p' ->
+    exec_run f1 pick1 Sync (p_types p') (p_funs p') (init_config p') = RQuiescent t1 ->
+    exists n, forall pick2 f2, (n < f2)%nat ->
+      exists t2, exec_run f2 pick2 Async (p_types p') (p_funs p') (init_config p') = RQuiescent t2 /\
+                 labels t2 ≡ₚ labels t1.
+Proof. exact async_sync_agree_typed_core. Qed.
+
+(* init_linear is decidable: the boolean check is sound, and accepted programs with channel
+   passing, cuts and calls pass it (a program with split does not: outside the core fragment) *)
+Theorem C03_init_linear_b_sound : forall p', init_linear_b p' = true -> init_linear p'.
+Proof. exact init_linear_b_sound. Qed.
+
+Example C03_init_linear_examples :
+  init_linear_text example_text = Some true /\ init_linear_text demo_pass_text = Some true /\
+  init_linear_text example_split_text = Some false.
+Proof. exact (conj example_init_linear (conj demo_init_linear split_not_core)). Qed.
+
 (* UNCONDITIONAL, for a syntactic class (fork-join configurations: close self / wait / new with a
    closed child / print / parameterless calls, one provider per process; `FJ c` is a structural
    property of the configuration, decided by `fj_cfg_b`): no invariant hypothesis is left. *)
@@ -260,6 +356,17 @@ Print Assumptions C03_no_longer_run.
 Print Assumptions C03_bufs_empty_init.
 Print Assumptions C03_sync_run_matched.
 Print Assumptions C03_async_sync_agree_partial.
+Print Assumptions C03_typed_async_discipline.
+Print Assumptions C03_typed_sync_discipline.
+Print Assumptions C03_determinism_typed.
+Print Assumptions C03_async_sync_agree_typed.
+Print Assumptions C03_inv_step.
+Print Assumptions C03_topo_step_core.
+Print Assumptions C03_topo_reachable_core.
+Print Assumptions C03_determinism_typed_core.
+Print Assumptions C03_async_sync_agree_typed_core.
+Print Assumptions C03_init_linear_b_sound.
+Print Assumptions C03_init_linear_examples.
 Print Assumptions C03_forkjoin_invariant.
 Print Assumptions C03_forkjoin_determinism.
 Print Assumptions C03_forkjoin_error_excludes_completion.
